@@ -3,7 +3,7 @@
           visit sequences in order, floats bit for bit);
    prop = the law's boolean checker accepts the implementation's observed output. *)
 From Coq Require Import ZArith String List Bool Floats.
-From SID Require Import Base Str Wire F64 ExactRef SetOps SetMore Comb VecF OrdMax PointLaws.
+From SID Require Import Base Str Wire F64 ExactRef SetOps SetMore Comb VecF OrdMax PointLaws MatCtor.
 Import ListNotations.
 Local Open Scope list_scope.
 Open Scope string_scope.
@@ -395,6 +395,10 @@ Definition d_maxminF (is_max : bool) (args : list val) (obs : val) : verdict :=
   end.
 
 (* NewMatrix3(m00 .. m22): every element read back in row-major order, and the three columns through MulVec of the basis vectors *)
+(* the nine wire arguments are decoded positionally into the model constructor MatCtor.fnew_matrix3 (row-major, as spatial.NewMatrix3) *)
+Lemma as_fmat_new_matrix3 a b c d e f g h i :
+  as_fmat (VL [VF a; VF b; VF c; VF d; VF e; VF f; VF g; VF h; VF i]) = Some (fnew_matrix3 a b c d e f g h i).
+Proof. reflexivity. Qed.
 Definition d_newmatrix (args : list val) (obs : val) : verdict :=
   match as_fmat (VL args) with
   | Some a =>
